@@ -51,13 +51,14 @@ JOBS = {
 }
 
 PROCS_RULE = ("two search modes. random: seed -> plan (process scripts over the listed operations, address-slot permutation, priorities, integer-grid times so that ties are the rule, "
-              "attached faults: interrupt / stop / guard cancel / guard remove / event cancel / priority change / restart / resume / condition signal / queue cancel, "
+              "attached faults: interrupt / stop / guard cancel / guard remove / event cancel / priority change / restart / resume / condition signal / queue cancel / "
+              "timer added, cancelled or all timers cleared by somebody else than the process, "
               "each aimed at a victim's in-flight operation with an event priority just above or below the victim's) -> real library under the harness-owned dispatch loop with "
               "monitors after every event and at every instant boundary. single-fault sweep: a fault-free base plan is sampled by seed and run once to record every blocking call's window; then every "
               "(call instance x instant in its window at which anything happened x applicable fault kind x event priority just above / just below the victim's) is run as its own plan. "
               "distinct = distinct trace hashes; non-trivial = at least one fault landed on a blocked operation")
 
-def procs_jobs(only, mixes, nq, nt, san_mix=None, crowd_mix=None, sweep_mixes=None):
+def procs_jobs(only, mixes, nq, nt, san_mix=None, crowd_mix=None, sweep_mixes=None, churn=0):
     jobs = []
     per = max(1, nq // max(1, len(mixes)))
     pert = max(1, nt // max(1, len(mixes)))
@@ -65,6 +66,10 @@ def procs_jobs(only, mixes, nq, nt, san_mix=None, crowd_mix=None, sweep_mixes=No
         jobs.append(J("procs", "rel", per, pert, cfg=m, only=only))
     if crowd_mix:
         jobs.append(J("procs", "rel", max(400, nq // 40), nt // 40, cfg=crowd_mix, only=only))
+    if churn:
+        # priority churn on one long waiting list (8/16-waiter thresholds), see gen_churn in procs_gen.c
+        jobs.append(J("procs", "rel", churn, churn * 40, cfg="churn=1", only=only))
+        jobs.append(J("procs", "san", max(500, churn // 10), churn * 4, cfg="churn=1", only=only))
     jobs.append(J("procs", "san", max(2000, nq // 12), nt // 12, cfg=san_mix or mixes[-1], only=only))
     # single-fault sweep: for each sampled fault-free base program, every (blocking call x instant in its window x fault kind x priority side)
     sw = sweep_mixes if sweep_mixes is not None else [m.split(",faults")[0] for m in mixes[:2]]
@@ -81,11 +86,11 @@ JOBS.update({
                      "a timer still armed when its process receives an interrupt or preemption notice may or may not fire afterwards (either is accepted)",
                      "a return with a non-success value must match exactly one undelivered cause with that unique value, due at exactly that instant"]),
     "C05": dict(level="fault_enumeration", rule=PROCS_RULE,
-        jobs=procs_jobs("C05", ["mix=res,faults=0", "mix=res,faults=1", "mix=res,faults=2", "mix=all,faults=2"], 900000, 24000000, crowd_mix="mix=res,faults=2,crowd=1"),
+        jobs=procs_jobs("C05", ["mix=res,faults=0", "mix=res,faults=1", "mix=res,faults=2", "mix=all,faults=2"], 900000, 24000000, crowd_mix="mix=res,faults=2,crowd=1", churn=10000),
         wall_quick=55, wall_thorough=1200,
         assumptions=["the harness keeps its own belief of who holds each resource from the return values alone and compares it with the holder/in-use/available/held-by queries and the process's own list after every event"]),
     "C06": dict(level="fault_enumeration", rule=PROCS_RULE,
-        jobs=procs_jobs("C06", ["mix=res,faults=1", "mix=pool,faults=1", "mix=buf,faults=1", "mix=oq,faults=1", "mix=pq,faults=1", "mix=all,faults=2"], 400000, 16000000, crowd_mix="mix=all,faults=1,crowd=1", sweep_mixes=["mix=res", "mix=pool", "mix=buf", "mix=oq", "mix=pq"]),
+        jobs=procs_jobs("C06", ["mix=res,faults=1", "mix=pool,faults=1", "mix=buf,faults=1", "mix=oq,faults=1", "mix=pq,faults=1", "mix=all,faults=2"], 400000, 16000000, crowd_mix="mix=all,faults=1,crowd=1", sweep_mixes=["mix=res", "mix=pool", "mix=buf", "mix=oq", "mix=pq"], churn=40000),
         wall_quick=55, wall_thorough=1200,
         assumptions=["judges wake-ups, not completion of a multi-step get/put (a woken waiter that finds nothing re-queues with a new entry time by design)",
                      "equal (priority, entry time) is left unordered; waiters whose priority was changed, or that ran, in the event of the grant are not compared",
@@ -93,12 +98,12 @@ JOBS.update({
                      "a waiter that stays in a list without running must keep its waiting-since time, and whoever enters a list does so with the current time",
                      "that the waiting-list comparator is a heap order at all is certified by C02 (hheap engine, comparator taken from a freshly initialised guard)"]),
     "C07": dict(level="fault_enumeration", rule=PROCS_RULE,
-        jobs=procs_jobs("C07", ["mix=pool,faults=0", "mix=pool,faults=1", "mix=pool,faults=2", "mix=all,faults=2"], 900000, 24000000, crowd_mix="mix=pool,faults=2,crowd=1"),
+        jobs=procs_jobs("C07", ["mix=pool,faults=0", "mix=pool,faults=1", "mix=pool,faults=2", "mix=all,faults=2"], 900000, 24000000, crowd_mix="mix=pool,faults=2,crowd=1", churn=10000),
         wall_quick=55, wall_thorough=1200,
         assumptions=["a process whose units vanish without it running, ending or being stopped is a preemption victim; the taker is the process that gained units in the same segment of the event",
                      "priorities are compared as they were at the latest of the start of the event and the preempting call"]),
     "C08": dict(level="fault_enumeration", rule=PROCS_RULE,
-        jobs=procs_jobs("C08", ["mix=res,faults=2", "mix=pool,faults=2", "mix=buf,faults=2", "mix=oq,faults=2", "mix=pq,faults=2", "mix=all,faults=2"], 400000, 16000000, crowd_mix="mix=all,faults=2,crowd=1", sweep_mixes=["mix=res", "mix=pool", "mix=buf", "mix=oq", "mix=pq"]),
+        jobs=procs_jobs("C08", ["mix=res,faults=2", "mix=pool,faults=2", "mix=buf,faults=2", "mix=oq,faults=2", "mix=pq,faults=2", "mix=all,faults=2"], 400000, 16000000, crowd_mix="mix=all,faults=2,crowd=1", sweep_mixes=["mix=res", "mix=pool", "mix=buf", "mix=oq", "mix=pq"], churn=10000),
         wall_quick=55, wall_thorough=1200,
         assumptions=["evaluated at every instant boundary (detected retrospectively) and at quiescence through the public queries only"]),
     "C09": dict(level="fault_enumeration", rule=PROCS_RULE,
@@ -133,11 +138,11 @@ JOBS.update({
         assumptions=["threads interleave at call granularity (a race inside one call is out of reach of a serialising scheduler)",
                      "24 sampler kinds with fixed admissible parameters; seeds 0, 1, 2^64-1, the dummy seed and random ones"]),
     "C19": dict(level="exploration",
-        rule="seed -> cimba_run_experiment called for real with wrapped pthread_create/join/cpu-count: 1-9 worker threads parked and released by the baton scheduler at yield points inside the trial function, 1-48 trials of six content kinds, element sizes 9-200 bytes; exactly-once ledger and byte comparison with each trial run alone in a fresh thread and with a one-after-another run; "
+        rule="seed -> cimba_run_experiment called for real with wrapped pthread_create/join/cpu-count: 1-9 worker threads parked and released by the baton scheduler at yield points inside the trial function, 1-48 trials of eight content kinds, element sizes 9-200 bytes, one common trial function or (a quarter of the runs) your_trial_func == NULL with the function stored as the first member of every trial struct; exactly-once ledger and byte comparison with each trial run alone in a fresh thread and with a one-after-another run; "
              "distinct = distinct trace hashes; non-trivial = some worker ran more than one trial and the baton changed hands",
         jobs=[J("experiment", "rel", 6000, 150000), J("experiment", "san", 1500, 30000)],
-        wall_quick=55, wall_thorough=900,
-        assumptions=["processes that compete for the same waiting list inside a trial have distinct priorities (the library breaks remaining ties by memory address, which differs between runs by design of malloc, not of cimba)",
+        wall_quick=55, wall_thorough=900, crash_is_violation=True,
+        assumptions=["a crash of an experiment run counts as a C19 violation (the call never returned)", "processes that compete for the same waiting list inside a trial have distinct priorities (the library breaks remaining ties by memory address, which differs between runs by design of malloc, not of cimba)",
                      "the number of worker threads itself is not judged"]),
     "C10": dict(level="exploration",
         rule="every engine's valid-program generator on the release-assert build (gcc -O3 -DNDEBUG) and on the ASan+UBSan build, plus growth templates (waiters on both sides of 8 and 16, thousands of armed timers and queued objects crossing 64 tag-pool chunks, histories beyond 1024 samples) and utility-class call sequences from the dispatcher and from inside a process; "
@@ -146,6 +151,7 @@ JOBS.update({
               J("procs", "rel", 3000, 60000, cfg="mix=all,faults=2,crowd=1", only="C10"), J("procs", "san", 1000, 20000, cfg="mix=all,faults=2,crowd=1", only="C10"),
               J("procs", "rel", 300, 6000, cfg="mix=all,faults=1,big=1,rec=1", only="C10"), J("procs", "san", 100, 2000, cfg="mix=all,faults=1,big=1,rec=1", only="C10"),
               J("procs", "san", 4000, 100000, cfg="mix=wait,faults=2,crowd=1", only="C10"),
+              J("procs", "rel", 6000, 200000, cfg="churn=1", only="C10"), J("procs", "san", 1500, 40000, cfg="churn=1", only="C10"),
               J("util", "rel", 30000, 800000, only="C10"), J("util", "san", 8000, 200000, only="C10"),
               J("events", "rel", 30000, 800000, only="C10"), J("events", "san", 8000, 200000, only="C10"),
               J("hheap", "san", 10000, 300000, only="C10"), J("coro", "san", 10000, 300000, only="C10"),
